@@ -333,7 +333,9 @@ def sweep(prop, A, jobs=16):
     base = read_sources(A.p.root)
     todo = []
     skipped = []
-    for i, (p, expect, name, edit) in enumerate(VARIANTS):
+    generic = [(prop, None, "twin: whole package re-printed by ast.unparse (formatting / comments / line numbers change)",
+                chain(unparse_roundtrip(FHS), unparse_roundtrip(CLI)))]
+    for i, (p, expect, name, edit) in enumerate(VARIANTS + generic):
         if p != prop:
             continue
         try:
